@@ -2,32 +2,60 @@
 
 For seeded/<Cxx>-<n>/ runs `tools/seedtest.py` with the check of property Cxx (plus any
 checks named in ALSO) and writes seeded/<Cxx>-<n>/caught.json.  Scratch copies only:
-/repo and /verif are not touched.  usage: python3 tools/seedsweep.py [ids...]"""
+/repo and /verif are not touched.  usage: [SEEDSWEEP_JOBS=k] python3 tools/seedsweep.py [ids...]
+(k parallel workers, each with its own scratch directory /tmp/seedrun_<i>)"""
 import json
+import os
+import queue
 import subprocess
 import sys
+import threading
 from pathlib import Path
 
 VERIF = Path(__file__).resolve().parents[1]
 ALSO = {"C01-3": ["C06"], "C02-3": ["C06"], "C05-1": ["C06"], "C05-3": ["C06"]}
 
 
+def one(sid, slot):
+    d = VERIF / "seeded" / sid
+    prop = sid.split("-")[0]
+    checks = [prop] + ALSO.get(sid, [])
+    env = dict(os.environ, SEEDRUN=f"/tmp/seedrun_{slot}")
+    p = subprocess.run([sys.executable, str(VERIF / "tools" / "seedtest.py"), str(d), *checks], capture_output=True, text=True, env=env)
+    try:
+        res = json.loads(p.stdout)
+    except ValueError:
+        res = {"error": (p.stdout + p.stderr)[-800:]}
+    res.pop("seed", None)
+    res["verif_head"] = subprocess.run(["git", "-C", str(VERIF), "rev-parse", "--short", "HEAD"], capture_output=True, text=True).stdout.strip()
+    res["caught_by"] = sorted(k for k, v in res.get("checks", {}).items() if v.get("exit") == 1 and v.get("violations", 0) > 0)
+    (d / "caught.json").write_text(json.dumps(res, indent=1) + "\n")
+    print(sid, "caught by", res["caught_by"], flush=True)
+
+
 def main():
     ids = sys.argv[1:] or sorted(p.name for p in (VERIF / "seeded").iterdir() if p.is_dir())
+    jobs = int(os.environ.get("SEEDSWEEP_JOBS", "1"))
+    q = queue.Queue()
     for sid in ids:
-        d = VERIF / "seeded" / sid
-        prop = sid.split("-")[0]
-        checks = [prop] + ALSO.get(sid, [])
-        p = subprocess.run([sys.executable, str(VERIF / "tools" / "seedtest.py"), str(d), *checks], capture_output=True, text=True)
-        try:
-            res = json.loads(p.stdout)
-        except ValueError:
-            res = {"error": (p.stdout + p.stderr)[-800:]}
-        res.pop("seed", None)
-        res["verif_head"] = subprocess.run(["git", "-C", str(VERIF), "rev-parse", "--short", "HEAD"], capture_output=True, text=True).stdout.strip()
-        res["caught_by"] = sorted(k for k, v in res.get("checks", {}).items() if v.get("exit") == 1 and v.get("violations", 0) > 0)
-        (d / "caught.json").write_text(json.dumps(res, indent=1) + "\n")
-        print(sid, "caught by", res["caught_by"], flush=True)
+        q.put(sid)
+
+    def worker(slot):
+        while True:
+            try:
+                sid = q.get_nowait()
+            except queue.Empty:
+                return
+            one(sid, slot)
+
+    ts = [threading.Thread(target=worker, args=(i,)) for i in range(jobs)]
+    for t in ts:
+        t.start()
+    for t in ts:
+        t.join()
+    for i in range(jobs):
+        subprocess.run(["rm", "-rf", f"/tmp/seedrun_{i}"])
+    subprocess.run(["git", "-C", "/repo", "worktree", "prune"])
 
 
 if __name__ == "__main__":
